@@ -111,18 +111,22 @@ def finish(ctx, prog, out=print):
     for f, k in matched_known:
         out("KNOWN-FINDING: property=%s %s [%s %s:%s %s]" % (ctx.prop, k.get("what_fails", f.message), f.rule,
                                                           f.module, f.line, f.function))
+    dry = bool(os.environ.get("ISOQLINT_NO_EVIDENCE"))
     if violations:
-        os.makedirs(outdir, exist_ok=True)
+        if not dry:
+            os.makedirs(outdir, exist_ok=True)
         for i, f in enumerate(violations):
             rp = os.path.join(outdir, "%d.json" % i)
-            with open(rp, "w") as fh:
-                json.dump(f.to_json(), fh, indent=1)
+            if not dry:
+                with open(rp, "w") as fh:
+                    json.dump(f.to_json(), fh, indent=1)
             out("%s:%s: [%s] %s: %s  <<%s>>" % (f.module, f.line, f.rule, f.function, f.message, f.construct))
             if f.path:
                 out("    path: %s" % f.path)
             out("VIOLATION property=%s replay=%s" % (ctx.prop, rp))
         code = 1
-    write_evidence(ctx, prog, violations, matched_known)
+    if not dry:
+        write_evidence(ctx, prog, violations, matched_known)
     return code
 
 
